@@ -39,7 +39,7 @@ class FJob:
             c.append({"op": "project", "cif": cf})
         ir = None
         if self.e["op"] not in CONSUMING and k > 0:
-            c.append(self.conc.cmd(self.e))
+            c.append(dict(self.conc.cmd(self.e), if_fired=1))      # the repetition is skipped when the failure did not fire
             ir = len(c) - 1
             for cf in self.cifs_after():
                 c.append({"op": "project", "cif": cf})
@@ -276,7 +276,7 @@ class VFJob:
         ir = None
         if k > 0:
             c += [x for x, _ in self._f1]
-            c.append(tc[0])
+            c.append(dict(tc[0], if_fired=1))      # skipped when the failure did not fire (the call then simply succeeded)
             ir = len(c) - 1
             c += tc[1:]
         c += [x for x, _ in self._f2]
@@ -422,13 +422,13 @@ class DocFJob:
             c = [{"op": "reset"}, self._parse(fail_at=k, fail_kinds=kinds), {"op": "project", "cif": "c1"}, {"op": "walk", "cif": "c1"}, {"op": "cif_destroy", "cif": "c1"}]
             it, ir = 1, None
             if k > 0:
-                c += [self._parse(), {"op": "project", "cif": "c1"}]
+                c += [self._parse(if_fired=1), {"op": "project", "cif": "c1"}]
                 ir = 5
             return c, it, ir
         c = [{"op": "reset"}, self._parse(), {"op": "project", "cif": "c1"}, {"op": "write", "cif": "c1", "fail_at": k, "fail_kinds": kinds}, {"op": "project", "cif": "c1"}]
         it, ir = 3, None
         if k > 0:
-            c += [{"op": "write", "cif": "c1"}]
+            c += [{"op": "write", "cif": "c1", "if_fired": 1}]
             ir = 5
         return c, it, ir
 
